@@ -202,13 +202,14 @@ class Termination:
                     return True
         # V.pop() / V.x.pop() / V.popitem() / V.clear()
         if isinstance(stmt, (ast.Expr, ast.Assign)):
-            call = stmt.value
-            if isinstance(call, ast.Call) and isinstance(call.func, ast.Attribute) and \
-                    call.func.attr in ('pop', 'popitem', 'clear', 'popleft'):
-                recv = call.func.value
-                for sub in ast.walk(test):
-                    if same_expr(sub, recv):
-                        return True
+            # also as an argument of another call: f(*V.popleft())  (evaluated unconditionally with the statement)
+            for call in ast.walk(stmt.value):
+                if isinstance(call, ast.Call) and isinstance(call.func, ast.Attribute) and \
+                        call.func.attr in ('pop', 'popitem', 'clear', 'popleft'):
+                    recv = call.func.value
+                    for sub in ast.walk(test):
+                        if same_expr(sub, recv):
+                            return True
         if isinstance(stmt, ast.Delete):
             for t in stmt.targets:
                 if isinstance(t, ast.Subscript):
